@@ -1,6 +1,7 @@
 import PhyVerif.Model.C09
 import PhyVerif.Spec.C09
 import PhyVerif.Lemmas.C09
+import PhyVerif.Lemmas.C09b
 /-!
 # C09 — amplitude, depth, duration and peak-channel summaries follow their definitions
 Only property theorems + non-vacuity examples; proofs in `Lemmas/C09.lean`.  Exact arithmetic.
@@ -68,7 +69,194 @@ theorem depths_eq (feat0 : List (List Rat)) (cols : List (List Nat)) (ys : List 
        if f.sum = 0 then none else some (dot y f / f.sum)) :=
   Lemmas.depths_eq feat0 cols ys st i hi hl
 
+/-! ## Second part: the unit factor, peak channels, durations in milliseconds, explicit sums
+(model: `Model/C09b.lean`, entry-level specification: `Spec/C09b.lean`, proofs: `Lemmas/C09b.lean`) -/
+
+/-- RETURNED spike amplitude (`get_amplitudes_true(...)[0]`) = stored amplitude × largest channel
+peak-to-peak of the spike's unwhitened template × unit factor, for every spike whose id is below the number
+of waveforms (otherwise the real code raises `IndexError` at model.py:1158; with amplitudes and spikes of
+different length it raises `ValueError`).  What "largest channel peak-to-peak" and the matrix product are in
+terms of entries: `peakAmp_spec`, `matMul_entry`. -/
+theorem spikeAmpUnit_eq (d : Data) (f : Rat) (i : Nat) (hi : i < d.spikes.length)
+    (ha : d.amplitudes.length = d.spikes.length) (hs : d.spikes.getD i 0 < d.wfsW.length) :
+    (spikeAmpsUnit d f).getD i 0 =
+      d.amplitudes.getD i 0 *
+        listMax (chAmps (matMul (d.wfsW.getD (d.spikes.getD i 0) []) d.wmi)) * f ∧
+    (spikeAmpsUnit d f).length = d.spikes.length :=
+  Lemmas.spikeAmpUnit_eq d f i hi ha hs
+
+/-- `listMax (chAmps W)` IS the largest channel peak-to-peak of a rectangular `(ns, nc)` waveform with at
+least one sample and one channel, stated on entries only: some channel has it as (largest sample − smallest
+sample), and no channel has more.  (Zero samples / zero channels: the real code raises `ValueError`, reduction
+over an empty axis.) -/
+theorem peakAmp_spec (W : Mat) (ns nc : Nat) (h : Rect W ns nc) (hns : 0 < ns) (hnc : 0 < nc) :
+    IsPeakAmp W nc (listMax (chAmps W)) :=
+  Lemmas.peakAmp_spec W ns nc h hns hnc
+
+/-- Entry of the unwhitened waveform `np.matmul(W, wmi)`: `Σ_k W[s,k] · M[k,j]` (row of `W` as long as `M` has
+rows; a shape mismatch makes the real `matmul` raise). -/
+theorem matMul_entry (W M : Mat) (s j : Nat) (hs : s < W.length) (hj : j < ncols M)
+    (hrow : (W.getD s []).length = M.length) :
+    entry (matMul W M) s j = sumTo M.length fun k => entry W s k * entry M k j :=
+  Lemmas.matMul_entry W M s j hs hj hrow
+
+/-- RETURNED per-id amplitude (`[2]`) = mean of the RETURNED spike amplitudes (`[0]`) over the member spikes,
+NaN for ids without spikes — for every id below the number of waveforms, any unit factor. -/
+theorem ampsVUnit_eq_mean (d : Data) (f : Rat) (ha : d.amplitudes.length = d.spikes.length) (t : Nat)
+    (ht : t < d.wfsW.length) :
+    (ampsVUnit d f).getD t none = meanOver d.spikes (spikeAmpsUnit d f) t ∧
+    (ampsVUnit d f).length = d.wfsW.length :=
+  Lemmas.ampsVUnit_eq_mean d f ha t ht
+
+/-- Scaling a sample vector by ANY factor scales its peak-to-peak amplitude by the absolute value. -/
+theorem ptp_scale_abs (v : List Rat) (c : Rat) : ptp (v.map (· * c)) = ptp v * |c| :=
+  Lemmas.ptp_scale_abs v c
+
+/-- The RETURNED waveform (`[1]`) of an id with spikes has exactly the RETURNED per-id amplitude `v` (`[2]`) as
+its peak amplitude (largest channel peak-to-peak, on entries), for stored amplitudes ≥ 0 and a unit factor
+≥ 0; non-flat unwhitened waveform (`hau`; a flat one divides by zero: NaN/inf in the real code, `none` here),
+rectangular with ≥ 1 sample and ≥ 1 channel.  Entry by entry it is the unwhitened waveform × (returned amplitude /
+arbitrary-unit amplitude). -/
+theorem rescaledUnit_peak (d : Data) (f : Rat) (hnn : ∀ a ∈ d.amplitudes, 0 ≤ a) (hf : 0 ≤ f)
+    (t : Nat) (ht : t < d.wfsW.length) (v : Rat)
+    (hv : (ampsVUnit d f).getD t none = some v) (hau : 0 < (ampsAu d).getD t 0) (ns nc : Nat)
+    (hns : 0 < ns) (hnc : 0 < nc) (hrect : Rect ((unwhitened d).getD t []) ns nc) :
+    ∃ W, (rescaledUnit d f).getD t none = some W ∧ Rect W ns nc ∧ IsPeakAmp W nc v ∧
+      ∀ s j, entry W s j = entry ((unwhitened d).getD t []) s j * (v / (ampsAu d).getD t 0) :=
+  Lemmas.rescaledUnit_peak_nonneg d f hnn hf t ht v hv hau ns nc hns hnc hrect
+
+/-- What holds WITHOUT any sign condition (negative stored amplitudes, negative unit factor): the peak amplitude
+of the returned waveform is the ABSOLUTE VALUE of the returned per-id amplitude.  So for a negative factor (or a
+negative mean amplitude) the clause "exactly that peak amplitude" is false in the real code by a sign — a
+peak-to-peak is never negative (real code run with factor −2.5: returned amplitudes [−21.875, −28.125], peak
+amplitudes of the returned waveforms [+21.875, +28.125]). -/
+theorem rescaledUnit_peak_abs (d : Data) (f : Rat) (t : Nat) (ht : t < d.wfsW.length) (v : Rat)
+    (hv : (ampsVUnit d f).getD t none = some v) (hau : 0 < (ampsAu d).getD t 0) (ns nc : Nat)
+    (hns : 0 < ns) (hnc : 0 < nc) (hrect : Rect ((unwhitened d).getD t []) ns nc) :
+    ∃ W, (rescaledUnit d f).getD t none = some W ∧ Rect W ns nc ∧ IsPeakAmp W nc |v| ∧
+      ∀ s j, entry W s j = entry ((unwhitened d).getD t []) s j * (v / (ampsAu d).getD t 0) :=
+  Lemmas.rescaledUnit_peak_full d f t ht v hv hau ns nc hns hnc hrect
+
+/-- Factor ≤ 0 with stored amplitudes ≥ 0: the peak amplitude is MINUS the returned per-id amplitude. -/
+theorem rescaledUnit_peak_neg (d : Data) (f : Rat) (hnn : ∀ a ∈ d.amplitudes, 0 ≤ a) (hf : f ≤ 0)
+    (t : Nat) (ht : t < d.wfsW.length) (v : Rat)
+    (hv : (ampsVUnit d f).getD t none = some v) (hau : 0 < (ampsAu d).getD t 0) (ns nc : Nat)
+    (hns : 0 < ns) (hnc : 0 < nc) (hrect : Rect ((unwhitened d).getD t []) ns nc) :
+    ∃ W, (rescaledUnit d f).getD t none = some W ∧ Rect W ns nc ∧ IsPeakAmp W nc (-v) ∧
+      ∀ s j, entry W s j = entry ((unwhitened d).getD t []) s j * (v / (ampsAu d).getD t 0) :=
+  Lemmas.rescaledUnit_peak_nonpos d f hnn hf t ht v hv hau ns nc hns hnc hrect
+
+/-- `_channels` (dense) / `templates_channels` / `clusters_channels`: entry `t` is THE peak channel of waveform
+`t` — the FIRST channel attaining the largest peak-to-peak (largest − smallest sample) — for a rectangular
+waveform with ≥ 1 sample and ≥ 1 channel; one entry per waveform. -/
+theorem peakChannels_spec (wfs : List Mat) (t ns nc : Nat) (ht : t < wfs.length)
+    (hrect : Rect (wfs.getD t []) ns nc) (hns : 0 < ns) (hnc : 0 < nc) :
+    IsPeakChannel (wfs.getD t []) nc ((peakChannels wfs).getD t 0) ∧
+    (peakChannels wfs).length = wfs.length :=
+  Lemmas.peakChannels_spec wfs t ns nc ht hrect hns hnc
+
+-- `hr` is the domain (a sampling rate); the equation itself does not need it
+set_option linter.unusedVariables false in
+/-- `_waveform_durations` in MILLISECONDS, direct formula: for THE peak channel `p` of waveform `t`, THE first
+position `iM` of the maximum and THE first position `im` of the minimum along time on that channel, entry `t`
+is `(iM − im) · 1000 / rate`; one entry per waveform.  All waveforms are `(ns, nc)` slices of one array, ≥ 1
+sample, ≥ 1 channel, rate > 0 (rate 0: the real code divides by zero, inf/NaN).  That `p`, `iM`, `im` exist
+(and are unique): `duration_objects_exist`. -/
+theorem duration_ms_spec (wfs : List Mat) (rate : Rat) (hr : 0 < rate) (ns nc : Nat) (hns : 0 < ns)
+    (hnc : 0 < nc) (hrect : ∀ W ∈ wfs, Rect W ns nc) (t : Nat) (ht : t < wfs.length) (p iM im : Nat)
+    (hp : IsPeakChannel (wfs.getD t []) nc p) (hM : IsFirstMax (chan (wfs.getD t []) p) iM)
+    (hm : IsFirstMin (chan (wfs.getD t []) p) im) :
+    (waveformDurations wfs rate).getD t 0 = (((iM : Int) - (im : Int) : Int) : Rat) * 1000 / rate ∧
+    (waveformDurations wfs rate).length = wfs.length :=
+  ⟨Lemmas.duration_ms_spec wfs rate ns nc hns hnc hrect t ht p iM im hp hM hm,
+   Lemmas.waveformDurations_length wfs rate⟩
+
+/-- The peak channel and the first arg-max / arg-min along time that `duration_ms_spec` quantifies over exist. -/
+theorem duration_objects_exist (W : Mat) (ns nc : Nat) (h : Rect W ns nc) (hns : 0 < ns) (hnc : 0 < nc) :
+    ∃ p iM im, IsPeakChannel W nc p ∧ IsFirstMax (chan W p) iM ∧ IsFirstMin (chan W p) im :=
+  Lemmas.duration_objects_exist W ns nc h hns hnc
+
+/-- `get_depths` entry `i` as an explicit finite sum over the `nloc` local channels `c_k` of the spike's
+template: `Σ_k y(c_k)·w_k / Σ_k w_k` with `w_k = max(feature_k, 0)²`, NaN when all weights vanish.  Index bounds
+as in the real arrays (a template id beyond the channel table or a channel beyond the positions raises
+`IndexError`; `-1` padding in `pc_feature_ind` does too — outside the quantifier). -/
+theorem depth_direct (feat0 : List (List Rat)) (cols : List (List Nat)) (ys : List Rat) (st : List Nat)
+    (i nloc : Nat) (hi : i < feat0.length) (hl : st.length = feat0.length)
+    (hf : (feat0.getD i []).length = nloc) (hst : st.getD i 0 < cols.length)
+    (hc : (cols.getD (st.getD i 0) []).length = nloc)
+    (hb : ∀ c ∈ cols.getD (st.getD i 0) [], c < ys.length) :
+    (depths feat0 cols ys st).getD i none =
+      (let w := fun k => max ((feat0.getD i []).getD k 0) 0 * max ((feat0.getD i []).getD k 0) 0
+       let y := fun k => ys.getD ((cols.getD (st.getD i 0) []).getD k 0) 0
+       if sumTo nloc w = 0 then none else some (sumTo nloc (fun k => y k * w k) / sumTo nloc w)) :=
+  Lemmas.depth_direct feat0 cols ys st i nloc hi hl hf hst hc hb
+
 /-! Non-vacuity -/
+example :
+    let d : Data := ⟨[[[1, 0], [-1, 2]], [[0, 3], [0, -3]], [[5, 5], [1, 1]]], [[2, 0], [0, 1/2]],
+                     [1, 2, 1/2], [0, 0, 1]⟩
+    amplitudesTrue d (5/2) =
+      ([10, 20, 15/4],
+       [some [[15/2, 0], [-15/2, 15/4]], some [[0, 15/8], [0, -15/8]], none],
+       [some 15, some (15/4), none]) ∧
+    (ampsAu d).getD 0 0 = 4 ∧ (unwhitened d).getD 0 [] = [[2, 0], [-2, 1]] := by
+  decide +kernel
+/-- negative factor: returned amplitude −15, peak amplitude of the returned waveform +15 -/
+example :
+    let d : Data := ⟨[[[1, 0], [-1, 2]]], [[2, 0], [0, 1/2]], [1, 2], [0, 0]⟩
+    ampsVUnit d (-5/2) = [some (-15)] ∧
+    (rescaledUnit d (-5/2)).map (fun o => o.map fun W => listMax (chAmps W)) = [some 15] := by
+  decide +kernel
+/-- two channels tie on the largest peak-to-peak (4): the first one is the peak channel; the duration is taken on it -/
+example :
+    let wfs : List Mat := [[[1, 0, 4], [-1, 2, 0], [3, 1, 2]], [[0, 0, 1], [0, 5, 0], [0, -1, 0]]]
+    peakChannels wfs = [0, 1] ∧ durTable wfs = [[1, 1, -1], [0, -1, -1]] ∧ ravelIndex 3 (peakChannels wfs) = [0, 4] ∧
+    waveformDurations wfs 30000 = [1/30, -1/30] ∧ waveformDurations wfs (390625/16) = [128/3125, -128/3125] := by
+  decide +kernel
+example : Rect [[1, 0, 4], [-1, 2, 0], [3, 1, 2]] 3 3 := ⟨rfl, by decide⟩
+
+/-! The hypotheses of the new theorems are met by concrete inputs (each theorem applied to one). -/
+section Instances
+def exD : Data := ⟨[[[1, 0], [-1, 2]], [[0, 3], [0, -3]], [[5, 5], [1, 1]]], [[2, 0], [0, 1/2]], [1, 2, 1/2], [0, 0, 1]⟩
+def exW : List Mat := [[[1, 0, 4], [-1, 2, 0], [3, 1, 2]], [[0, 0, 1], [0, 5, 0], [0, -1, 0]]]
+
+example : (spikeAmpsUnit exD (5/2)).getD 1 0 = 2 * 4 * (5/2) := by
+  have h := (spikeAmpUnit_eq exD (5/2) 1 (by decide) (by decide) (by decide)).1
+  rwa [show listMax (chAmps (matMul (exD.wfsW.getD (exD.spikes.getD 1 0) []) exD.wmi)) = 4 by decide +kernel,
+    show exD.amplitudes.getD 1 0 = 2 by decide +kernel] at h
+example : (ampsVUnit exD (5/2)).getD 0 none = meanOver exD.spikes (spikeAmpsUnit exD (5/2)) 0 :=
+  (ampsVUnit_eq_mean exD (5/2) (by decide) 0 (by decide)).1
+example : meanOver exD.spikes (spikeAmpsUnit exD (5/2)) 0 = some 15 ∧
+    meanOver exD.spikes (spikeAmpsUnit exD (5/2)) 2 = none := by decide +kernel
+example : ∃ W, (rescaledUnit exD (5/2)).getD 0 none = some W ∧ Rect W 2 2 ∧ IsPeakAmp W 2 15 ∧
+    ∀ s j, entry W s j = entry ((unwhitened exD).getD 0 []) s j * (15 / (ampsAu exD).getD 0 0) :=
+  rescaledUnit_peak exD (5/2) (by decide +kernel) (by decide +kernel) 0 (by decide) 15 (by decide +kernel)
+    (by decide +kernel) 2 2 (by decide) (by decide) ⟨by decide +kernel, by decide +kernel⟩
+example : ∃ W, (rescaledUnit exD (-5/2)).getD 0 none = some W ∧ Rect W 2 2 ∧ IsPeakAmp W 2 (-(-15)) ∧
+    ∀ s j, entry W s j = entry ((unwhitened exD).getD 0 []) s j * (-15 / (ampsAu exD).getD 0 0) :=
+  rescaledUnit_peak_neg exD (-5/2) (by decide +kernel) (by decide +kernel) 0 (by decide) (-15) (by decide +kernel)
+    (by decide +kernel) 2 2 (by decide) (by decide) ⟨by decide +kernel, by decide +kernel⟩
+example : IsPeakChannel (exW.getD 0 []) 3 0 := by
+  have h := (peakChannels_spec exW 0 3 3 (by decide) ⟨by decide, by decide⟩ (by decide) (by decide)).1
+  rwa [show (peakChannels exW).getD 0 0 = 0 by decide +kernel] at h
+example : (waveformDurations exW 30000).getD 0 0 = (((2 : Nat) : Int) - ((1 : Nat) : Int) : Int) * 1000 / 30000 := by
+  have hp : IsPeakChannel (exW.getD 0 []) 3 0 := by
+    have h := (peakChannels_spec exW 0 3 3 (by decide) ⟨by decide, by decide⟩ (by decide) (by decide)).1
+    rwa [show (peakChannels exW).getD 0 0 = 0 by decide +kernel] at h
+  have hM : IsFirstMax (chan (exW.getD 0 []) 0) 2 := by unfold IsFirstMax; decide +kernel
+  have hm : IsFirstMin (chan (exW.getD 0 []) 0) 1 := by unfold IsFirstMin; decide +kernel
+  exact (duration_ms_spec exW 30000 (by decide +kernel) 3 3 (by decide) (by decide) (by decide) 0 (by decide)
+    0 2 1 hp hM hm).1
+example : entry (matMul [[1, 2], [3, 4]] [[2, 0], [1, 1/2]]) 1 0 = sumTo 2 fun k => entry [[1, 2], [3, 4]] 1 k * entry [[2, 0], [1, 1/2]] k 0 :=
+  matMul_entry _ _ 1 0 (by decide) (by decide) (by decide)
+example : (sumTo 2 fun k => entry [[1, 2], [3, 4]] 1 k * entry [[2, 0], [1, 1/2]] k 0) = 10 := by decide +kernel
+example : (depths [[1, -2, 2, 3]] [[2, 0, 1, 2]] [10, 20, 40] [0]).getD 0 none = some (240/7) := by
+  rw [depth_direct [[1, -2, 2, 3]] [[2, 0, 1, 2]] [10, 20, 40] [0] 0 4 (by decide) (by decide) (by decide) (by decide)
+    (by decide) (by decide)]
+  decide +kernel
+end Instances
+example : depths [[1, -2, 2, 3]] [[2, 0, 1, 2]] [10, 20, 40] [0] = [some (240/7)] := by
+  decide +kernel
 example :
     let d : Data := ⟨[[[1, 0], [-1, 2]], [[0, 3], [0, -3]], [[5, 5], [1, 1]]], [[2, 0], [0, 1/2]],
                      [1, 2, 1/2], [0, 0, 1]⟩
